@@ -448,7 +448,7 @@ class SubspaceTensor(ProjectiveTensor, ABC):
 
     def _matrix_transform(self, m: npt.ArrayLike) -> SubspaceTensor:
         transformed_basis = matmul(self.basis_matrix, m, transpose_b=True)
-        transformed_basis_points = [PointCollection.from_array(p) for p in np.swapaxes(transformed_basis, 0, -2)]
+        transformed_basis_points = [PointCollection.from_array(p) for p in np.moveaxis(transformed_basis, -2, 0)]
         return join(*transformed_basis_points)
 
     @property
